@@ -30,3 +30,10 @@ add("C04", "fault_enumeration", "runtime monitor with exhaustive crash-point rep
 add("C05", "fault_enumeration", "runtime monitor: dead-set vs reachability oracle over raw stored bytes, prune write-log subset check, exhaustive crash-point replay of each prune",
     "3 200 (quick) / 48 000 (thorough) histories; after every round all dead sets reported so far are intersected with the node set reachable from the new root (must be empty); every prune's physical deletes must be a subset of the dead sets recorded below the prune version, records below are gone and the others remain, retained roots stay readable; every prefix of each prune's write stream is replayed as a crash followed by restart and re-run.",
     "Same storage stand-in as C04; reachability is computed by the harness' own parser of the stored encodings.")
+
+add("C14", "exploration", "runtime monitor: structural sweep of every store level at quiescent points with an independent parser/hasher and decode-encode round trip",
+    "9 600 (quick) / 240 000 (thorough) histories (direct and multi-round, separator-heavy values, version bumps) on memory, layered and persistent stores; every node of every level is swept: key == own hash == hash recomputed from the stored bytes by the harness; CreateNode(enc) keeps hash and bytes; roots re-compute bottom-up from stored bytes to the model content.",
+    "Covers the node kinds that histories produce (counted in the evidence); hash format as read from the pinned code.")
+add("C17", "exploration", "runtime monitor: harness-computed frontier/blocked-path oracle over systematic node removals, donor snapshot comparison around MergeDB",
+    "4 800 (quick) / 120 000 (thorough) tries built over 1-4 versions; for every single non-root node (<=24), subtrees and scattered subsets the damaged copy must report exactly the frontier, fail exactly the blocked lookups with ErrNodeNotFound, never yield wrong data, and after MergeDB from a donor store read the full content with the same root while the donor's key->encoding snapshot is unchanged.",
+    "Single-node removals exhaustive per trie (up to 24 nodes), other subsets sampled; donor is a MemoryNodeDB.")
